@@ -130,3 +130,16 @@ M("c07_bootstrap_size", HD, "        size = int((1 - (1 / num_subsets)) * self.r
 M("c07_hellinger_no_sqrt_norm", HD, "                np.sqrt(test_density[b] / t_length)\n                - np.sqrt(reference_density[b] / r_length)", "                np.sqrt(test_density[b] / r_length)\n                - np.sqrt(reference_density[b] / r_length)", ["C07"])
 M("c07_no_append_reference", HD, "            self.reference = pd.concat([self.reference, X])\n", "            self.reference = pd.concat([self.reference, X]) if self.batches_since_reset != 4 else self.reference\n", ["C07"])
 M("c07_epsilon_signed", HD, "current_epsilon = abs(self.current_distance - self._prev_distance) * 1.0", "current_epsilon = (self.current_distance - self._prev_distance) * 1.0", ["C07"])
+
+PC = "menelaus/data_drift/pca_cd.py"
+M("c11_ph_threshold_tenth", PC, "self.ph_threshold = round(0.01 * window_size)", "self.ph_threshold = round(0.1 * window_size)", ["C11"])
+M("c11_min_of_scores", PC, "change_score = max(change_scores)", "change_score = min(change_scores)", ["C11"])
+M("c11_reference_not_replaced", PC, "                self._reference_window = self._test_window.copy()\n", "                self._reference_window = self._reference_window.copy()\n", ["C11"])
+M("c11_schedule_since_reset", PC, "            if (((self.total_samples - 1) % self.step) == 0) and (", "            if (((self.samples_since_reset - 1) % self.step) == 0) and (", ["C11"])
+M("c11_shared_range_again", PC, "                            bin_range=self._bin_ranges[f\"PC{i + 1}\"],\n", "                            bin_range=(self.lower, self.upper),\n", ["C11"])
+M("c11_scaling_off_uses_scaler_stub", PC, "            else:\n                next_obs = pd.DataFrame(X)\n", "            else:\n                next_obs = pd.DataFrame(X - X.mean())\n", ["C11"])
+# (equivalent: dropping the explicit monitor reset - PageHinkley.update resets itself when its own state is drift)
+M("c11_test_window_not_slid", PC, "            self._test_pca_projection = pd.concat(\n                [self._test_pca_projection.iloc[1:, :], next_proj]\n            )", "            self._test_pca_projection = pd.concat(\n                [self._test_pca_projection.iloc[1:, :], next_proj]\n            ) if self.samples_since_reset % 7 else self._test_pca_projection", ["C11"])
+M("c11_bins_from_2w", PC, "self.bins = int(np.floor(np.sqrt(self.window_size)))", "self.bins = int(np.floor(np.sqrt(2 * self.window_size)))", ["C11"])
+M("c11_no_inverse_transform", PC, "                    self._reference_window = pd.DataFrame(\n                        self._reference_scaler.inverse_transform(self._reference_window)\n                    )", "                    self._reference_window = pd.DataFrame(self._reference_window)", ["C11"])
+M("c11_discard_sample_kept", PC, "                self._test_window = pd.DataFrame()\n                self.reset()", "                self._test_window = pd.DataFrame(X)\n                self.reset()", ["C11", "C01"])
